@@ -279,7 +279,17 @@ _WAVE7 = {
  "C06": "An empty result (not an exception) when no instant has all channels in range.",
  "C07": "Dividends a hair below (1e-9 .. 1e-17) and above multiples of the divisor, divisors of either sign as Phase and as Quantity, quotients from -5 to 2^20.",
  "C08": "Times 20 - 300 ns past every junction of touching / overlapping spans; p(time_at(ph)) compared with ph in cycles, also on a dense family late in the 24 h interval of the shipped file and in 8-day contiguous files; subsets with no rows.",
- "C10": "Axes outside -ndim .. ndim-1; channel widths differing by 9e-6 on very wide pieces.",
+ "C09": "In-place operators with wider operands (the container's dtype must be kept, or the call refused, as on NumPy data); transforms whose own keywords are spelt like map_blocks parameters.",
+ "C10": "Axes outside -ndim .. ndim-1; channel widths differing by 9e-6 on very wide pieces; rate mismatches on pieces without start time; joins along a trailing sample axis.",
+ "C11": "Lower-sideband GUPPI files against the format's channel order (descending, conjugated); readers without a start time through relative times.",
+ "C12": "Whole-sample durations and Times 1e8 samples into a lazily held 2^27-sample signal.",
+ "C14": "The axis given as a 0-d array; Phase conversions with copy=False; text forms of signals with arrays in meta.",
+ "C15": "Format specifications with the z flag, fills (also '.'), alignments and grouping; np.array_equal / array_equiv and the outer form of comparisons; byte strings.",
+ "C16": "Logarithmic units and lengths under enabled spectral equivalencies offered as frequencies.",
+ "C17": "The first signal operand labels the result also when a later operand is of a derived class; Signal masks for where=; every generalized ufunc refused; length-1 labelled axes stretched by broadcasting.",
+ "C18": "Timestamps kept bit for bit on 600 generic epochs of three time scales.",
+ "C19": "Byte-swapped half precision; float16 input held to double precision.",
+ "C20": "Integer s / axes, positional norm, inconsistent s / axes and scipy's execution hints on Dask arrays; nperseg with a prime factor above 11.",
 }
 for _c in CHECKS:
     if _c["property_id"] in _WAVE7:
